@@ -70,6 +70,9 @@ Schema(s) ==
          << DSec("t", {"MULTI","TITLE"}, << DInt("x", "5"), DPtr("p") >>) >>
     [] s = 8 -> (* two lists with defaults: interplay of consecutive list assignments *)
          << DIntList("la", <<"1","2">>), DStrList("lb", <<"x">>) >>
+    [] s = 15 -> (* declared sections inside a free-form section: they are free-form too *)
+         << DSec("kv", {"KEYSTRVAL"}, << DSec("in", {}, << DInt("x", "5") >>),
+                                         DSec("g", {"MULTI","TITLE"}, <<>>) >>) >>
     [] s = 14 -> (* options whose value lives in the caller's variables (the CFG_SIMPLE macros) *)
          << DSimple("n", "int", "0"), DSimple("w", "str", Null), DSimple("v", "bool", "false"),
             DSimple("d", "float", "0"), DInt("i", "7"),
@@ -92,8 +95,9 @@ ValuePool(s) ==
     [] s = 11 -> {"1"}
     [] s = 12 -> {"1"}
     [] s = 14 -> {"1", "x", "true"}
+    [] s = 15 -> {"1"}
 TitlePool(s) == IF s \in {2, 3, 4} THEN (IF Mode \in {"ignore", "ignorecmt"} THEN {"a"} ELSE {"a", "b"})
-                ELSE IF s = 7 THEN {"a", "A"} ELSE IF s = 9 THEN {"a"} ELSE {}
+                ELSE IF s = 7 THEN {"a", "A"} ELSE IF s \in {9, 15} THEN {"a"} ELSE {}
 
 (* ------------------------------------------------------------------ *)
 (* token alphabet, depending on where the parser is                    *)
